@@ -379,3 +379,23 @@ __CPROVER_ensures (%s);
 for _k in 'tfc':
     for _wr in (False, True):
         UNITS.extend(_qui_unit(_k, _wr))
+
+# ------------------------------------------------------------------ mpz_divisible_2exp_p: 1 exactly when the low d bits of |a| are zero (a == 0 included)
+UNITS.append(dict(name='mpz_divisible_2exp_p', props=['C02', 'C04', 'C15'], source='mpz/divis_2exp.c', contracts=['mpn.h', 'mpz.h'],
+    contract_text='''int __gmpz_divisible_2exp_p (mpz_srcptr a, mp_bitcnt_t d)
+__CPROVER_requires (V_WF (a) && 0 <= gj && gj <= V_NMAX)
+__CPROVER_assigns (g_hd)
+__CPROVER_ensures (__CPROVER_return_value == 0 || __CPROVER_return_value == 1)
+/* d reaches past the top of a: only 0 is divisible */
+__CPROVER_ensures ((unsigned long) V_ABSIZ (a) <= d / 64 ==> __CPROVER_return_value == (V_SIZ (a) == 0))
+/* otherwise: answer 1 means every whole limb below d is zero (at gj) and the partial limb has its low d mod 64 bits clear */
+__CPROVER_ensures (((unsigned long) V_ABSIZ (a) > d / 64 && __CPROVER_return_value == 1) ==> (((unsigned long) gj < d / 64 ==> V_PTR (a)[gj] == 0) && (V_PTR (a)[d / 64] & ((1UL << (d % 64)) - 1)) == 0))
+/* answer 0 names a witness: a non-zero whole limb g_hd below d, or (g_hd == d/64) a set bit among the low d mod 64 bits of the partial limb */
+__CPROVER_ensures (((unsigned long) V_ABSIZ (a) > d / 64 && __CPROVER_return_value == 0) ==> (0 <= g_hd && (unsigned long) g_hd <= d / 64
+      && ((unsigned long) g_hd < d / 64 ? V_PTR (a)[g_hd] != 0 : (V_PTR (a)[d / 64] & ((1UL << (d % 64)) - 1)) != 0)));
+''', enforce=['__gmpz_divisible_2exp_p'],
+    functions={'__gmpz_divisible_2exp_p': dict(
+        inserts=[(r'(?<=if \(ap\[i\] != 0\))\s*return 0;', r' { g_hd = i; \g<0> }'), (r'dbits = d % \(64 - 0\);', r'g_hd = dlimbs; \g<0>')],
+        loops={0: dict(scalars=['i', 'g_hd'], inv='(0 <= i && i <= dlimbs && dlimbs == (mp_size_t) (d / 64) && dlimbs < asize && asize == V_ABSIZ (a) && ap == V_PTR (a) && ((0 <= gj && gj < i) ==> ap[gj] == 0))', dec='(dlimbs - i)')})},
+    harness='void h_mpz_divisible_2exp_p (void) {\n' + mpz_obj('A') + '  mp_bitcnt_t d = nondet_ulong (); gj = nondet_long ();\n  __gmpz_divisible_2exp_p (&A, d);\n}', timeout=600,
+    selftest=[('__gmpz_divisible_2exp_p', r'for \(i = 0; i < dlimbs; i\+\+\)', 'for (i = 1; i < dlimbs; i++)'), ('__gmpz_divisible_2exp_p', r'if \(asize <= dlimbs\)', 'if (asize < dlimbs)')]))
